@@ -759,6 +759,17 @@ func genRace(seed uint64, run int) *Case {
 	if NewRng(seed, uint64(run), 79).Chance(0.5) {
 		cs.Muted = append(cs.Muted, int(ptMuLock))
 	}
+	// a sorted index that readers iterate while writers commit to the sorted column (own stream)
+	sortCol := ""
+	if sr := NewRng(seed, uint64(run), 92); sr.Chance(0.5) {
+		for _, c := range vc {
+			if c.Kind == KString || c.Kind == KEnum {
+				sortCol = c.Name
+				cs.Steps = append(cs.Steps, Step{Kind: "createsort", Sort: &SortSpec{Name: "rsx", Col: c.Name}})
+				break
+			}
+		}
+	}
 	colName := func() string { return vc[r.Intn(len(vc))].Name }
 	anyName := func() string {
 		if len(g.indexes) > 0 && r.Chance(0.5) {
@@ -844,6 +855,22 @@ func genRace(seed uint64, run int) *Case {
 			tp.Txns = append(tp.Txns, t)
 		}
 		cs.Threads = append(cs.Threads, tp)
+	}
+	if sortCol != "" {
+		ar := NewRng(seed, uint64(run), 93)
+		for ti := range cs.Threads {
+			switch cs.Threads[ti].Role {
+			case "reader":
+				if ar.Chance(0.6) {
+					cs.Threads[ti].Txns = append(cs.Threads[ti].Txns, TxnProg{Ops: []Op{{Kind: "ascend", Col: "rsx", Yield: ar.Chance(0.5)}}})
+				}
+			case "writer":
+				// the writers also store into the sorted column
+				if c, ok := colOf(g.cols, sortCol); ok && ar.Chance(0.7) {
+					cs.Threads[ti].Txns = append(cs.Threads[ti].Txns, TxnProg{Ops: []Op{{Kind: "at", Target: Target{Mode: "stable", K: ar.Intn(64)}, Writes: []Write{{Col: sortCol, Val: g.genVal(c)}}}}})
+				}
+			}
+		}
 	}
 	return cs
 }
